@@ -32,7 +32,7 @@ def flist(xs):
 
 
 def zlist(xs):
-    return "[" + "; ".join(zl(x) for x in xs) + "]"
+    return "[" + "; ".join(zl(x) for x in xs) + "]%Z"
 
 
 def blist(xs):
